@@ -166,6 +166,14 @@ reg(
              "rawdb::Regions::fill -> Ok(()) (runs after both locks; empty regions file)", "<[u8]>::to_vec -> bounded copy (8)"]),
 )
 
+reg(
+    H("c18_lock_lives_with_last_handle", "rawdb", "C18", mem=12, timeout=1200,
+      desc="open, clone the handle, optionally take a read-only file for an external consumer, drop the handles one by one (the Arc model runs the real drop glue of DatabaseInner when the last strong reference goes): both advisory locks are held while any handle is alive and released with the last one, even while the consumer still holds its read-only file (which must therefore be a separate open file description)",
+      bounds="data file 0..8 pages, empty regions file; fs model: a lock lives until the last handle on the locking open-file description is dropped (flock semantics), try_clone shares the description, open creates a new one",
+      functions=["rawdb::Database::{open_with_min_len,open_read_only_file,clone,drop}", "rawdb::Regions::open", "drop glue of DatabaseInner / Regions"],
+      stubs=[FMT, SBG, "std::path::Path::file_name -> None", "std::path::Path::join -> last component", "rawdb::Regions::fill -> Ok(())", "<[u8]>::to_vec -> bounded copy (8)"]),
+)
+
 PROM = "Layout::promote_pending_holes -> stub that records a ghost 'promote' event and empties the pending map (the real function is decided by c02_l1_promote_*)"
 reg(
     H("c05_flush_order", "rawdb", "C05", mem=30, timeout=2400, tier="thorough", also=("C12",),
